@@ -279,7 +279,15 @@ impl Policy {
         }
     }
     pub fn attr_kept(&self, elem: &str, attr: &str) -> bool {
-        if self.remove_attrs.get(elem).is_some_and(|s| s.contains(attr)) {
+        // removal lists are matched on the local name (so `xlink:href` goes when `href` is listed):
+        // the property bounds what may survive, and the documentation of `remove_attributes` does
+        // not speak about namespaces, so the more conservative reading is followed
+        self.attr_kept_ql(elem, attr, attr)
+    }
+    /// `attr`: name as serialised (`xlink:href` for a namespaced attribute of foreign content),
+    /// `local`: its local name (`href`); both are the same for attributes without a namespace.
+    pub fn attr_kept_ql(&self, elem: &str, attr: &str, local: &str) -> bool {
+        if self.remove_attrs.get(elem).is_some_and(|s| s.contains(local)) {
             return false;
         }
         match (&self.allow_attrs, self.strict) {
@@ -467,8 +475,8 @@ pub fn reference_clean(html: &Html, p: &Policy) -> Vec<RNode> {
                     return;
                 }
                 let mut kept: Vec<(String, String)> = vec![];
-                for (k, _, v) in attrs {
-                    if !p.attr_kept(&name, &k) {
+                for (k, local, v) in attrs {
+                    if !p.attr_kept_ql(&name, &k, &local) {
                         continue;
                     }
                     if k == "class" {
